@@ -425,6 +425,31 @@ def wrong_literal(rng, doc, s):
     return True
 
 
+@operator("ValuesOfCorrectTypeChecker")
+def list_literal_for_non_list_type(rng, doc, s):
+    """`[v]` where a scalar, enum or input object is expected (argument of a field or of @skip / @include)."""
+    fields = all_fields(doc, s)
+    if not fields:
+        return None
+    cands = []
+    for x, sels, scope, owner in fields:
+        st = s.types.get(scope)
+        f = st.field(x.name) if st is not None and st.kind in ("object", "interface") else None
+        if f is not None:
+            for a in f.args:
+                if S.nullable(a.type)[0] == "named":
+                    cands.append((x, a))
+    if cands and rng.random() < 0.6:
+        x, a = rng.choice(cands)
+        v = _sg(rng, s).input_value_for(a.type, allow_null=False)
+        x.args[a.name] = [v] if rng.random() < 0.7 else [[v]]
+        return True
+    x = rng.choice(fields)[0]
+    x.directives = [d for d in x.directives if d[0] not in ("skip", "include")]
+    x.directives.append((rng.choice(["skip", "include"]), collections.OrderedDict([("if", [rng.random() < 0.5])])))
+    return True
+
+
 @operator("ProvidedRequiredArgumentsChecker")
 def missing_required_argument(rng, doc, s):
     cands = []
